@@ -194,6 +194,23 @@ def run_case(case, ctx):
                 err = float(np.max(np.abs(tot - 1)))
                 ctx.stat("splice_sum_err", err)
                 ctx.check(err <= 1e-12, "C17.splice_sum", lambda: f"splicing amplitudes sum deviates from 1 by {err:.3g}")
+        # the same windows collected first and used afterwards (list(...), handing the triples to workers): every amplitude
+        # vector handed out stays what it was when the generator moves on
+        if nref * min(nswin, ns) <= 2_000_000:
+            def _collect():
+                return list(itertools.islice(WG(ns, nswin, ov).firstlast_splicing, cap))
+            items = ctx.call("C17.splice", _collect)
+            if items is not ctx.CRASH and ctx.check(
+                    len(items) == nref and all(len(t) == 3 and (int(t[0]), int(t[1])) == ref[i] and np.shape(t[2]) == (t[1] - t[0],)
+                                               for i, t in enumerate(items)),
+                    "C17.splice_windows", lambda: f"collected splicing windows wrong: {[(t[0], t[1]) for t in items[:4]]}"):
+                tot = np.zeros(ns)
+                for first, last, amp in items:
+                    tot[first:last] += amp
+                err = float(np.max(np.abs(tot - 1)))
+                ctx.check(err <= 1e-12, "C17.splice_sum_collected",
+                          lambda: f"splicing amplitudes collected in a list and summed afterwards deviate from 1 by {err:.3g} "
+                                  f"(ns={ns}, nswin={nswin}, overlap={ov})")
     if _reuse_wanted(case):
         _reuse(case, ctx, WG, ref)
 
